@@ -29,6 +29,8 @@ echo "confirmed: demo_passes_clean=$clean_ok demo_fails_patched=$patched_fail su
 # our checks against a scratch copy of the repository with the patch (never /repo itself while background runs use it)
 unset CARGO_TARGET_DIR
 SCR=/tmp/deskset-scratch-repo
+# one scratch copy and one alt target: check phases of parallel invocations are serialised
+exec 9>/tmp/deskset-seeded.lock; flock 9
 [ -d $SCR ] || git -C /repo worktree add -q --detach $SCR HEAD
 cd $SCR && git checkout -q -- . && git apply $S/patch.diff || { echo "patch does not apply to scratch repo"; exit 2; }
 DET=""
